@@ -4,6 +4,7 @@
 package c05
 
 import (
+	"context"
 	"fmt"
 	"os"
 	"sort"
@@ -377,3 +378,49 @@ func checkMut(c *pbt.Case, r *pbt.R) {
 var mutProp = &pbt.Prop{ID: "C05", Part: "mutations", Draw: drawMut, Check: checkMut}
 
 func TestMutations(t *testing.T) { pbt.Run(t, mutProp) }
+
+// TestUnregister: registering a decoder and unregistering it again
+// (nil) must leave DecodeError total for that key, in every registry.
+func TestUnregister(t *testing.T) {
+	st := pbt.NewStats("unregister")
+	defer st.Write()
+	p := &pbt.Prop{ID: "C05", Part: "unregister"}
+	base := errbase.VerifSnapshotRegistry()
+	defer errbase.VerifInstallRegistry(base)
+	key := errbase.TypeKey("verif/props/c05/*c05.ephemeral")
+	regs := []struct {
+		name string
+		on   func()
+		off  func()
+	}{
+		{"leaf", func() {
+			errbase.RegisterLeafDecoder(key, func(context.Context, string, []string, proto.Message) error { return errors.New("decoded") })
+		}, func() { errbase.RegisterLeafDecoder(key, nil) }},
+		{"wrapper", func() {
+			errbase.RegisterWrapperDecoder(key, func(_ context.Context, c error, _ string, _ []string, _ proto.Message) error { return errors.WithStack(c) })
+		}, func() { errbase.RegisterWrapperDecoder(key, nil) }},
+		{"multi-cause", func() {
+			errbase.RegisterMultiCauseDecoder(key, func(_ context.Context, cs []error, _ string, _ []string, _ proto.Message) error { return errors.Join(cs...) })
+		}, func() { errbase.RegisterMultiCauseDecoder(key, nil) }},
+	}
+	n := uint64(0)
+	for _, rg := range regs {
+		for pos := 0; pos < 3; pos++ {
+			errbase.VerifInstallRegistry(base)
+			rg.on()
+			rg.off()
+			st.Eval()
+			n++
+			enc := message(string(key), pos, 0, payloadFault{"absent", nil}, nil, 0)
+			if f := decodeAndUse(enc, string(key), pos); f != nil {
+				c := &pbt.Case{}
+				c.SetStr("registry", rg.name)
+				c.SetInt("pos", pos)
+				f.Sig = "after unregistering a " + rg.name + " decoder: " + f.Sig
+				pbt.Fail(t, p, st, c, f)
+			}
+			st.NT(n, func() interface{} { return "register+unregister " + rg.name + " decoder, decode as " + posNames[pos] })
+		}
+	}
+	st.Exhaustive = true
+}
